@@ -173,7 +173,7 @@ def run_stmt(s, regs, ins, outs, st):
             try:
                 run_stmts(s[1], regs, ins, outs, st)
             except Exception as e:
-                st.setdefault("caught", []).append((st["pc"], type(e).__name__))
+                st.setdefault("caught", []).append((st["pc"], type(e).__name__, len(R.cons), len(R.kinds)))
                 del st["gstack"][depth:]
             continue
         if op == "arrset":
@@ -358,7 +358,7 @@ def run_case(case):
     for i, (a, b, c) in enumerate(R.cons):
         ev = lambda l: sum(cf * w(k) for k, cf in items(l))
         if (ev(a) * ev(b) - ev(c)) % p != 0: unsat.append(i)
-    rec = {"id": case.get("id"), "exn": exn, "msg": st.get("msg"), "tb": st.get("tb"), "nvars": len(R.kinds), "ncons": len(cons), "npub": len(R.pubs),
+    rec = {"id": case.get("id"), "exn": exn, "msg": st.get("msg"), "tb": st.get("tb"), "caught": st.get("caught", []), "nvars": len(R.kinds), "ncons": len(cons), "npub": len(R.pubs),
            "dig": [D.digest_vars(p, R.kinds, R.pubs, R.privs), D.digest_cons(p, cons), D.digest_outs(p, outs), D.digest_exn(p, exn, cur)],
            "unsat": unsat[:5], "incoherent": st["coh"][:5], "mutated": st["mutated"][:5], "floatbad": st.get("floatbad", False), "pc": st["pc"],
            "shape": [D.digest_cons(p, cons), "".join(R.kinds), D.digest_outs(p, [(t, 0, l) for t, v, l in outs if t > 0])],
@@ -385,8 +385,31 @@ def run_case(case):
     return rec
 
 
+def run_isolated(case):
+    """each case runs in a forked child of this (freshly imported) interpreter: whatever state the library keeps between
+    calls -- module globals, class-level caches, lazily imported modules -- starts from the import-time state for every case"""
+    r, w = os.pipe()
+    pid = os.fork()
+    if pid == 0:
+        os.close(r)
+        try:
+            out = json.dumps(run_case(case))
+        except BaseException as e:
+            import traceback
+            sys.stderr.write("runner child failed on case %r: %s\n" % (case.get("id"), traceback.format_exc()[-1500:]))
+            out = ""
+        with os.fdopen(w, "w") as f: f.write(out)
+        sys.stderr.flush()
+        os._exit(0)
+    os.close(w)
+    with os.fdopen(r) as f: data = f.read()
+    os.waitpid(pid, 0)
+    return data
+
+
 for line in sys.stdin:
     line = line.strip()
     if not line: continue
-    print(json.dumps(run_case(json.loads(line))))
+    if os.environ.get("VERIF_NOFORK"): print(json.dumps(run_case(json.loads(line))))
+    else: print(run_isolated(json.loads(line)))
     sys.stdout.flush()
